@@ -297,6 +297,35 @@ def sha1_rules(ctx):
             ctx.fail_closed("SHA1", f"sha1::K{i} not found")
         else:
             ctx.ob("SHA1", f"K{i}", v == Ks[i], f"K{i} = {v:#010x}; floor(2^30*sqrt(c)) = {Ks[i]:#010x}", "src/sha1.rs")
+    # hasher state = (chaining state, bytes already compressed, bytes buffered): whoever rewinds one part of it rewinds
+    # all three — a reset that keeps the processed-byte counter makes every later digest of a reused hasher carry the
+    # wrong message length.  `update` (which advances all three through its block callback) is the reference writer.
+    sha_adt = prog.adts.get("sha1::Sha1")
+    if not sha_adt:
+        ctx.fail_closed("SHA1", "sha1::Sha1 not found")
+    else:
+        n_fields = len(sha_adt["variants"][0]["fields"])
+        n_w = 0
+        for name, b in prog.raw_bodies.items():
+            if not name.startswith("sha1::") or "{closure" in name or not getattr(b, "locals", None) or len(b.locals) < 2:
+                continue
+            if str(b.locals[1].get("ty", "")).replace(" ", "") != "&mutsha1::Sha1":
+                continue
+            touched = set()
+            for blk in b.blocks:
+                for st in blk["s"]:
+                    if st.get("k") != "assign":
+                        continue
+                    for pl, is_w in ((st["lhs"], True), (st["rv"].get("p") if st["rv"].get("k") == "ref" and st["rv"].get("mut") else None, True)):
+                        if isinstance(pl, dict) and pl.get("l") == 1 and len(pl.get("p", [])) >= 2 and pl["p"][0] == "*" and isinstance(pl["p"][1], dict) and pl["p"][1].get("a") == "sha1::Sha1":
+                            touched.add(pl["p"][1].get("n"))
+                    # whole-value store `*self = Sha1 { .. }` rewinds everything
+                    if st["lhs"].get("l") == 1 and st["lhs"].get("p") == ["*"]:
+                        touched |= {f_["name"] for f_ in sha_adt["variants"][0]["fields"]}
+            if touched:
+                n_w += 1
+                ctx.ob("SHA1", f"state-writer|{name.split('::')[-1]}", len(touched) == n_fields, f"{name} writes hasher fields {sorted(touched)}; a method that changes the hasher state changes all of {[f_['name'] for f_ in sha_adt['variants'][0]['fields']]} (chaining state, buffered block, processed-byte count)", b.file, b.line)
+        ctx.floor("SHA1", "methods that write the hasher state", n_w, 1)
     dl = prog.const_scalar("sha1::DIGEST_LENGTH")
     ctx.ob("SHA1", "DIGEST_LENGTH", dl == 20, f"DIGEST_LENGTH = {dl}", "src/sha1.rs")
     # round-group dispatch
